@@ -298,7 +298,9 @@ class FileStorage(
             self._file.write(packed_version)
 
         self._files = FilePool(self._file_name)
-        r = self._restore_index()
+        # A saved index describes the whole file: a time-travel open
+        # (which reads up to ``stop`` only) must not start from it.
+        r = self._restore_index() if stop == b'\377' * 8 else None
         if r is not None:
             self._used_index = 1  # Marker for testing
             index, start, ltid = r
